@@ -2,7 +2,7 @@
 From stdpp Require Import gmap strings.
 From EV Require Import Base.Str Model.Value Model.Adapt Model.Keyspace Model.Reply Model.Prog Model.HashVal
   Model.CmdList Model.CmdHash Model.Dispatch.
-From EV Require Import Spec.SpecHash Proofs.KeyspaceLemmas Proofs.HashPure Proofs.HashProofs Proofs.HashRand.
+From EV Require Import Spec.SpecHash Proofs.KeyspaceLemmas Proofs.HashPure Proofs.HashProofs Proofs.HashRand Proofs.DispatchLemmas.
 Local Open Scope Z_scope.
 
 (** For every finite sequence of argument vectors (any command word, any arity, any bytes), from
@@ -90,8 +90,11 @@ Theorem C14_dispatch : forall w c argv h,
   exec_cmd w 0 argv =
   (let '(s', r) := exec_hash (conn_db w 0) argv (w_st w) in (World s' (w_conns w), r)).
 Proof.
-  intros w c argv h Hargv Hh. unfold exec_cmd, exec_hash. rewrite Hargv.
-  unfold handler_of, first_some. cbn [fold_right]. rewrite (hash_names_not_list _ _ Hh), Hh. by destruct (run_seq _ _ _).
+  intros w c argv h Hargv Hh.
+  assert (Hho : handler_of (lower c) = Some h)
+    by (rewrite DispatchLemmas.handler_of_unfold, (hash_names_not_list _ _ Hh), Hh; done).
+  destruct argv as [|c0 rest]; [discriminate|]. injection Hargv as ->.
+  rewrite (DispatchLemmas.exec_cmd_runs_handler w 0 (c :: rest) c h eq_refl Hho). unfold exec_hash. by rewrite Hh.
 Qed.
 Print Assumptions C14_dispatch.
 
